@@ -5,7 +5,7 @@
 //!             responsibilities that are exactly 0/1 and every sum/product of
 //!             estimate_gaussian_parameters is exact, so weights/means/covariances are compared
 //!             bit for bit with the Gallina model (C10/Model.v at B64_ops).
-//!   general : separated / overlapping / anisotropic / degenerate / offset / tiny blobs, 1..6 features,
+//!   general : separated / overlapping / anisotropic / degenerate / offset (1e3 and 1e5..2e9) / tiny blobs, 1..6 features,
 //!             1..4 components, both initialisers, reg_covar in {0,1e-6,1e-2,..}; judged by the
 //!             Coq checker gmm_ok (exact rational arithmetic) and by the posterior enclosure.
 //!   error   : inputs on which fitting cannot succeed (max_n_iterations = 1, more components than
@@ -220,8 +220,10 @@ fn rand_unit(r: &mut Sm64, d: usize) -> Vec<f64> {
 }
 
 /// general stream; kind: 0 separated, 1 overlapping, 2 anisotropic, 3 degenerate (duplicated / constant
-/// feature), 4 large offset, 5 tiny scale, 6 tight blobs (spread below sqrt(reg_covar))
+/// feature), 4 large offset, 5 tiny scale, 6 tight blobs (spread below sqrt(reg_covar)), 7 blobs of unit spread
+/// at an offset of 1e5..2e9 from the origin (cancellation in any uncentred second-moment formula)
 fn gen_general(r: &mut Sm64, nblobs: usize, per: usize, d: usize, kind: u64) -> Mat {
+    let far_offset = if kind == 7 { 10f64.powf(5.0 + 4.3 * r.unit()) * if r.chance(0.5) { -1.0 } else { 1.0 } } else { 0.0 };
     let sep = match kind { 1 => 1.5, 6 => 3.0, _ => 12.0 };
     let centres: Mat = (0..nblobs).map(|_| (0..d).map(|_| sep * r.gauss()).collect()).collect();
     // per-blob linear map
@@ -252,6 +254,7 @@ fn gen_general(r: &mut Sm64, nblobs: usize, per: usize, d: usize, kind: u64) -> 
                     if d >= 2 { x[d - 1] = x[0]; } else { x[0] = 1.25; }
                 }
                 4 => { for v in x.iter_mut() { *v += 1000.0; } }
+                7 => { for v in x.iter_mut() { *v += far_offset; } }
                 5 => { for v in x.iter_mut() { *v *= 1e-3; } }
                 _ => {}
             }
@@ -438,15 +441,18 @@ fn main() {
     for _ in 0..n_general {
         let mut r = rng.fork();
         let d = 1 + r.below(6) as usize;
-        let kind = r.below(7);
+        let kind = r.below(8);
         let nblobs = 1 + r.below(4) as usize;
         let k = if r.chance(0.75) { nblobs } else { 1 + r.below(4) as usize };
+        // far from the origin half of the fits use one component: with reg_covar > 0 such a fit must succeed
+        let k = if kind == 7 && r.chance(0.5) { 1 } else { k };
         let per = if thorough { 12 + r.below(30) as usize } else { 10 + r.below(14) as usize };
         let x = gen_general(&mut r, nblobs, per.max(d + 4), d, kind);
         let reg = match kind {
             3 => *r.pick(&[1e-6, 1e-2, 1e-4]),
             6 => *r.pick(&[1e-2, 0.25]),
             5 => *r.pick(&[0.0, 1e-6, 1e-9]),
+            7 => *r.pick(&[1e-6, 1e-2]),
             _ => *r.pick(&[0.0, 1e-6, 1e-2, 1e-6]),
         };
         let cfg = Cfg {
@@ -603,5 +609,5 @@ fn main() {
             }
         }
     }
-    out.finish("three streams: exact (dyadic separated blobs, hard responsibilities, bit-for-bit), general (7 data families x d 1..6 x k 1..4 x both initialisers x reg_covar), error (non-convergence, too many components, singular covariance, overflow, n < k); a case is non-trivial when k > 1 (exact stream: k > 1 or d > 1 and compared bit for bit; error stream: an Err was returned); distinct = distinct (data, k, stream) hashes");
+    out.finish("three streams: exact (dyadic separated blobs, hard responsibilities, bit-for-bit), general (8 data families x d 1..6 x k 1..4 x both initialisers x reg_covar), error (non-convergence, too many components, singular covariance, overflow, n < k); a case is non-trivial when k > 1 (exact stream: k > 1 or d > 1 and compared bit for bit; error stream: an Err was returned); distinct = distinct (data, k, stream) hashes");
 }
